@@ -2,6 +2,7 @@ package props
 
 import (
 	"fmt"
+	"strings"
 	"sync"
 	"testing"
 	"time"
@@ -38,6 +39,10 @@ func genC13(mode string) func(t *rapid.T) c13Case {
 			case i < 2:
 				m := genValidParams(t, mode, 3, 2)
 				cl.Req = genReq{Method: "POST", Body: m.writeDoc(styleHexLower), Class: "valid", Expect: "valid", Hash: m.InputHash}
+				if pad := pick(t, "valid_pad", 0, 0, 1<<20, 4<<20); pad > 0 {
+					// megabyte bodies (production batches are this large): reading and decoding then take long enough to overlap
+					cl.Req.PadLen, cl.Req.PadAt, cl.Req.Class = pad, "whitespace-prefix", "overlong:whitespace"
+				}
 			case i == 2:
 				m := genValidParams(t, mode, 3, 2)
 				m.PostRoot = addMod(m.PostRoot, 1)
@@ -45,11 +50,10 @@ func genC13(mode string) func(t *rapid.T) c13Case {
 			case rapid.IntRange(0, 5).Draw(t, "scrape") == 0:
 				cl.Scrape = true
 			default:
-				for {
-					cl.Req = genRequest(t, mode, 3, 2)
-					if cl.Req.PadLen == 0 {
-						break
-					}
+				cl.Req = genRequest(t, mode, 3, 2)
+				if cl.Req.PadLen == 0 && rapid.IntRange(0, 3).Draw(t, "pad_any") == 0 && strings.HasPrefix(cl.Req.Body, "{") && cl.Req.Method == "POST" {
+					// leading whitespace does not change what the document is
+					cl.Req.PadLen, cl.Req.PadAt = pick(t, "any_pad", 1<<20, 2<<20, 4<<20), "whitespace-prefix"
 				}
 				if rapid.Bool().Draw(t, "second_wave") {
 					cl.OffsetMs += rapid.IntRange(100, 600).Draw(t, "wave_offset") // overlaps the tail of the first wave
